@@ -164,6 +164,10 @@ def run_case(res, case, sigs, attempt=0):
     nstores = r.choice([1, 1, 2, 3, 4])
     repeat_uid = mode == 'storage-dir' and r.random() < 0.6
     concurrent = mode == 'storage-dir' and repeat_uid and r.random() < 0.4
+    many = mode == 'storage-dir' and i % 29 == 5
+    if many:
+        # the same instance stored a few dozen times: every copy gets a name of its own
+        nstores, repeat_uid, concurrent = 36, True, False
     source = r.choice(['memory', 'file'])
     close_in_handler = r.random() < 0.3
     outcomes = [r.choice([0x0000, 0x0000, 0xB000, 0xB007, 0xA700, 0xC123, 'raise']) for _ in range(nstores)]
@@ -186,7 +190,7 @@ def run_case(res, case, sigs, attempt=0):
     datasets = []
     for k in range(nstores):
         size = r.choice([5, chunk - 1, chunk, chunk + 1, 3 * chunk + 2, min(40 * chunk, 200000)])
-        size = max(1, min(size, 200000))
+        size = max(1, min(size, 200000 if not many else 60 - k))
         if client_max == 0 and server_max == 0 and k == 0 and r.random() < 0.5:
             size = 1600000           # one P-DATA-TF of more than a MiB (no limit on either side)
         inst = '1.2.826.55.%d.%d' % (i, 0 if repeat_uid else k)
